@@ -1080,7 +1080,30 @@ fn c04(g: &Group, obs: &[Obs]) -> Option<String> {
 
 /// C04 generator: 60 % the type-directed generator over the whole function table, 40 % expressions
 /// over exactly the functions the reference evaluator covers, with boundary arguments
+/// every comparison of two small number literals around zero, of either sign, integer or with a fraction, at top level and
+/// inside a list: the six comparison functions against the reference (equality of numbers is equality of their values)
+fn gen_c04_cmp_grid(r: &mut Rng, id: usize) -> Group {
+    let lits = ["0", "-0", "0.0", "1", "-1", "-5", "5", "2", "-2", "0.5", "-0.5", "1.0", "-1.0", "100", "-100", "1e2", "-3"];
+    let a = r.ps(&lits);
+    let b = r.ps(&lits);
+    let (x, y) = if r.chance(25) { (format!("[{a}]"), format!("[{b}]")) } else { (a.to_string(), b.to_string()) };
+    let mut c = Case { id: format!("C04-{id}-cmp"), mode: "run".into(), ..Default::default() };
+    for (i, f) in ["=", "!=", "<", "<=", ">", ">="].iter().enumerate() {
+        c.spec.selects.push(format!("({f} {x} {y})=c{i}"));
+    }
+    c.spec.utf8 = true;
+    c.sources.push(stdin_src(b"null".to_vec()));
+    let mut g = Group::new(vec![c]);
+    g.values = vec![V::Null];
+    g.tag = format!("cmp {x} {y}");
+    g.labels.push("kind:comparison-grid".into());
+    g
+}
+
 pub fn gen_c04(r: &mut Rng, id: usize) -> Group {
+    if r.chance(4) {
+        return gen_c04_cmp_grid(r, id);
+    }
     if r.chance(60) {
         let d = r.range(1, 5);
         return safe_expr_case(r, id, "C04", &crate::exprgen::ExprOpts::default(), d);
